@@ -396,3 +396,67 @@ def kind_table(P: Project, R: Report) -> None:
                 if k == "raise":
                     outs.add("rejected")
             R.ob("R3", f"to_specific_type maps a {kind} to the {kind} class", outs == {kind}, ts.where, f"yields {sorted(outs)}")
+
+    # ------------------------------------------------------------------ R6: builders hand the payload through
+    R.rule("R6", "the message builders (create_request / create_notification / create_response / create_error_response, module-level and classmethod) put the caller's payload object — or a structural copy of it — into the envelope: on the way from the parameter to the constructor it passes through nothing but dict/list copies; a serialise-and-parse round trip or any other call on the payload is a finding (the codecs are not value-preserving for every JSON value, C17)")
+    COPIES = {"dict", "list", "copy.copy", "copy.deepcopy", "deepcopy", "copy"}
+    n_b = 0
+    for f in sorted(P.funcs_in(A.MOD_JSONRPC), key=lambda f: f.fq):
+        if not f.name.startswith("create_") or f.parent is not None:
+            continue
+        R.fn(f.fq)
+
+        def bev(call, st, an, f=f):
+            if kwarg(call, "jsonrpc") is None:
+                return None
+            seen_calls = []
+
+            def walk_val(e, depth=0):
+                if depth > 8:
+                    return
+                for n in ast.walk(e):
+                    if isinstance(n, ast.Call):
+                        seen_calls.append(n)
+                    if isinstance(n, ast.Name):
+                        d = an.defs.get(st.term(n.id) or "", ("", None))[1]
+                        if d is not None:
+                            walk_val(d.value if isinstance(d, ast.Await) else d, depth + 1)
+
+            for k in call.keywords:
+                if k.arg in ("params", "result", "error"):
+                    walk_val(k.value)
+            bad = []
+            for c in seen_calls:
+                nm = call_name(c)
+                if nm in COPIES or (isinstance(c.func, ast.Attribute) and c.func.attr in ("copy", "get", "setdefault", "items")) or nm in ("str", "uuid.uuid4"):
+                    continue
+                g = P.resolve_call(f, c)
+                codec = nm.split(".")[-1] in ("dumps", "loads", "dump", "load") or (isinstance(g, FuncInfo) and g.module.name in (A.MOD_FASTJSON, "json"))
+                bad.append(("codec:" if codec else "other:") + ast.unparse(c)[:60])
+            return "build:" + "|".join(sorted(set(bad)))
+
+        ba, bo = run_paths(f.node, event_of=bev, fallible=False)
+        for st, node in bo.ret:
+            evs = [e for e in st.events if e.startswith("build:")]
+            if not evs:
+                continue
+            n_b += 1
+            bad = [x for e in evs for x in e[len("build:"):].split("|") if x]
+            other = [x for x in bad if x.startswith("other:")]
+            if other and not any(x.startswith("codec:") for x in bad):
+                raise AnalysisError(f"{f.module.rel}:{node.lineno}: {f.qual} passes the payload through `{other[0][6:]}`, which this rule cannot classify as a copy")
+            R.ob("R6", f"{f.qual}: the payload reaches the envelope untouched", not bad, f"{f.module.rel}:{node.lineno}",
+                 f"on the way into the envelope the payload goes through `{bad[0].split(':', 1)[1] if bad else ''}`: a JSON encode/decode round trip changes values the codecs do not preserve (integers beyond 64 bits become floats under the fast backend), so parsing the emitted form no longer gives back the payload",
+                 sample=f"R6 {f.qual}: payload handed through")
+    R.need(n_b >= 6, f"only {n_b} builder paths found (8 builders confirmed by hand)")
+
+    # envelope classes: configuration that rewrites strings changes ids and method names on the way in
+    from ..models import config_findings
+
+    cf = [x for x in config_findings(ModelTable(P)) if x[0].ci.module.name == A.MOD_JSONRPC]
+    for m, k, v, effect in cf:
+        R.ob("R1", f"{m.name}: the envelope's configuration leaves id, method and payload keys as sent", False, f"{m.ci.module.rel}:{m.ci.node.lineno}",
+             f"model_config[{k!r}] = {v!r} {effect}: an id or method name is no longer the one on the wire, so parsing the emitted form does not give back the message")
+    if not cf:
+        R.ob("R1", "envelope configuration rewrites nothing", True, P.module(A.MOD_JSONRPC).rel, "")
+
